@@ -25,7 +25,7 @@ CLASSES = ["cmd_added", "cmd_renamed", "param_type", "param_added", "param_renam
            "ret_type", "cmd_rename_all",
            "field_added", "field_type", "field_rename", "rename_identity", "rename_all", "skip_added",
            "variant_added", "variant_rename", "validator", "validator_changed",
-           "event_payload", "event_renamed", "event_added",
+           "event_payload", "event_renamed", "event_added", "event_struct",
            "channel_type", "channel_added",
            "mode", "type_mapping", "param_case", "field_case"]
 FILE_OF = {"types": "types.ts", "commands": "commands.ts", "events": "events.ts", "index": "index.ts",
@@ -68,6 +68,7 @@ def render(st):
     zip_ty = "Option<u32>" if a["field_type"] else "Option<String>"
     # a rename that spells the identifier itself: it changes the output only because it switches the container's
     # rename_all off for this field (totalItems -> total_items)
+    report_field = "    pub eta_seconds: Option<u32>,\n" if a["event_struct"] else ""
     identity_attr = '    #[serde(rename = "total_items")]\n' if a["rename_identity"] else ""
     models = """use serde::{Deserialize, Serialize};
 use std::path::PathBuf;
@@ -106,7 +107,13 @@ pub struct Progress {
 pub struct Unused {
     pub x: i32,
 }
-""" % (user_attr, valid_attr, email_attr, secret_attr, extra_field, inactive_attr, variant, zip_ty, identity_attr)
+
+// reaches the bindings ONLY as an event payload: no command mentions it
+#[derive(Serialize, Deserialize)]
+pub struct JobReport {
+    pub percent: u8,
+%s}
+""" % (user_attr, valid_attr, email_attr, secret_attr, extra_field, inactive_attr, variant, zip_ty, identity_attr, report_field)
     id_ty = "String" if a["param_type"] else "i32"
     ret_ty = "Vec<User>" if a["ret_type"] else "User"
     get_name = "fetch_user" if a["cmd_renamed"] else "get_user"
@@ -161,6 +168,10 @@ pub fn notify(app: tauri::AppHandle, %s) {
 
 pub fn tick(window: tauri::Window) {
     window.emit("tick", 1).ok();
+}
+
+pub fn report_job(app: tauri::AppHandle, report: JobReport) {
+    app.emit("job-report", report).ok();
 }
 
 // the same variable names as in `notify`, but nothing here says what their types are
